@@ -547,3 +547,48 @@ def t3b(ctx):
                       'gets the remembered answer' % (inst(f), ' thread_local' if (v.x or {}).get('tls') else '',
                                                       v.name, v.type), v.loc)
     ctx.require(n >= 3, 'only %d caching recognisers found' % n)
+
+
+L6_ALLOWED = ('gil_safe_call_once_and_store', 'read_write_mutex', 'std::mutex', 'std::shared_mutex',
+              'std::recursive_mutex', 'unordered_map', 'unordered_set', 'PyModuleDef', 'slots_array',
+              'PyMutex', 'std::once_flag', 'std::atomic')
+
+
+@rule('L6', floor=20, title='no call-spanning scratch state: function-local statics are once-initialised values, locks or locked caches')
+def l6(ctx):
+    """A `static` or `thread_local` local outlives the call.  The engine runs user code in the middle
+    of its traversals (flatten functions, predicates, mapped functions), and that code can call
+    back into the engine on the same thread: a scratch buffer kept in a static / thread_local
+    local is then shared between the outer and the nested call (and, when merely `static`,
+    between threads).  The only function-local statics are therefore once-initialised objects,
+    mutexes, and the caches those mutexes guard (T3 / L3 decide how the caches are used);
+    anything else - in particular a sequence container or a Python object - is call-spanning
+    scratch state."""
+    prog = ctx.cxx()
+    n = 0
+    seen = set()
+    for f in live_funcs(prog):
+        if f.body is None or not f.file:
+            continue
+        for v in f.body.find('VarDecl'):
+            x = v.x or {}
+            if not (x.get('storageClass') == 'static' or x.get('tls')):
+                continue
+            key = (f.file, f.name, v.name)
+            if key in seen:
+                continue
+            seen.add(key)
+            n += 1
+            t = (v.type or '') + ' ' + ((x.get('desugared') or ''))
+            ok = any(a in t for a in L6_ALLOWED) or (v.type or '').startswith('const ') or 'constexpr' in str(x)
+            owner = f if not f.is_lambda else prog.funcs.get(f.parent, f)
+            ctx.check('%s/static %s' % (short(owner), v.name), ok,
+                      '%s: static local `%s` is a once-initialised value, a lock or a locked cache (%s)'
+                      % (inst(f), v.name, (v.type or '')[:50]),
+                      '%s keeps `%s` (%s) in a %s local: the buffer outlives the call, so a nested call made '
+                      'from user code that runs during the traversal (a custom flatten function, an '
+                      'is_leaf predicate) - or another thread - works on the same object; paths, leaves '
+                      'or counts of the two calls get mixed'
+                      % (inst(f), v.name, (v.type or '')[:60], 'thread_local' if x.get('tls') else 'static'),
+                      v.loc)
+    ctx.analysed['function_local_statics'] = n
